@@ -395,18 +395,20 @@ class Pass1(CompilePass):
         self.compilation.user_types[node.name] = node
 
     def process_else_if_pre(self, node):
-        if not any(isinstance(p, IfBlock) for p in node.parents()):
-            raise CompileError(
-                EC.ELSE_WITHOUT_IF,
-                'ELSEIF outside IF block',
-                node=node)
+        # the ELSEIF and ELSE statements of an IF block are consumed
+        # when the block is built; one that is still in a statement
+        # list is not directly inside an IF block (being somewhere
+        # below one, e.g. in a loop nested in it, does not count).
+        raise CompileError(
+            EC.ELSE_WITHOUT_IF,
+            'ELSEIF outside IF block',
+            node=node)
 
     def process_else_pre(self, node):
-        if not any(isinstance(p, IfBlock) for p in node.parents()):
-            raise CompileError(
-                EC.ELSE_WITHOUT_IF,
-                'ELSE outside IF block',
-                node=node)
+        raise CompileError(
+            EC.ELSE_WITHOUT_IF,
+            'ELSE outside IF block',
+            node=node)
 
     def process_data_pre(self, node):
         if node.parent_routine != self.compilation.main_routine:
